@@ -12,7 +12,9 @@ import (
 	"runtime"
 	"strings"
 	"sync"
+	"sync/atomic"
 	"testing"
+	"time"
 )
 
 type replayFile struct {
@@ -228,6 +230,40 @@ var (
 	aborted  bool
 )
 
+// freeRun: the cooperative scheduler is off (see FreeRun in sym_decl.go)
+var (
+	freeRun   bool
+	freeWG    sync.WaitGroup
+	freeAbort atomic.Bool
+)
+
+func FreeRun() { freeRun = true }
+
+// NoBlock: f must return; a watchdog turns a hang into a "no-deadlock" failure.
+func NoBlock(f func()) {
+	done := make(chan struct{})
+	var pv any
+	go func() {
+		defer close(done)
+		defer func() { pv = recover() }()
+		f()
+	}()
+	select {
+	case <-done:
+		if pv != nil {
+			panic(pv)
+		}
+	case <-time.After(8 * time.Second):
+		mu.Lock()
+		if failed == "" {
+			failed = "no-deadlock"
+			failMsg = "call did not return within 8s"
+		}
+		mu.Unlock()
+		panic(stop{"blocked forever"})
+	}
+}
+
 func schedInit(s []int) {
 	threads = []*thr{{id: 0, wake: make(chan struct{}, 1)}}
 	curThr = threads[0]
@@ -282,7 +318,7 @@ func pick(me *thr, id int, mustSwitch bool) *thr {
 
 // Point is one scheduling event before a visible operation.
 func Point() struct{} {
-	if len(threads) == 0 {
+	if freeRun || len(threads) == 0 {
 		return struct{}{}
 	}
 	me := curThr
@@ -302,6 +338,10 @@ type tryRLocker interface {
 
 // Lock is the cooperative form of m.Lock().
 func Lock(m tryLocker) {
+	if freeRun {
+		m.(sync.Locker).Lock()
+		return
+	}
 	Point()
 	for !m.TryLock() {
 		me := curThr
@@ -315,6 +355,10 @@ func Lock(m tryLocker) {
 
 // RLock is the cooperative form of m.RLock().
 func RLock(m tryRLocker) {
+	if freeRun {
+		m.(interface{ RLock() }).RLock()
+		return
+	}
 	Point()
 	for !m.TryRLock() {
 		me := curThr
@@ -327,6 +371,27 @@ func RLock(m tryRLocker) {
 }
 
 func Go(f func()) {
+	if freeRun {
+		freeWG.Add(1)
+		go func() {
+			defer freeWG.Done()
+			defer func() {
+				if r := recover(); r != nil {
+					if _, ok := r.(stop); !ok {
+						mu.Lock()
+						if failed == "" {
+							failed = "no-panic"
+							failMsg = fmt.Sprint(r)
+						}
+						mu.Unlock()
+					}
+					freeAbort.Store(true)
+				}
+			}()
+			f()
+		}()
+		return
+	}
 	if len(threads) == 0 {
 		schedInit(nil)
 	}
@@ -376,6 +441,13 @@ func allOthersDone() bool {
 }
 
 func Wait() {
+	if freeRun {
+		freeWG.Wait()
+		if freeAbort.Load() {
+			panic(stop{"a thread stopped the replay"})
+		}
+		return
+	}
 	if len(threads) == 0 {
 		return
 	}
@@ -392,10 +464,25 @@ func Wait() {
 	}
 }
 
-func Yield() { Point() }
+func Yield() {
+	if freeRun {
+		runtime.Gosched()
+		return
+	}
+	Point()
+}
 
 // WaitUntil is the cooperative form of "block until f()".
 func WaitUntil(f func() bool) {
+	if freeRun {
+		for !lockedCond(f) && !freeAbort.Load() {
+			time.Sleep(200 * time.Microsecond)
+		}
+		if freeAbort.Load() {
+			panic(stop{"a thread stopped the replay"})
+		}
+		return
+	}
 	if len(threads) == 0 {
 		for !f() {
 			runtime.Gosched()
@@ -413,6 +500,15 @@ func WaitUntil(f func() bool) {
 	if aborted && curThr.id == 0 {
 		panic(stop{"a thread stopped the replay"})
 	}
+}
+// lockedCond evaluates a harness condition; in free-run mode the ghost state it
+// reads is written by other goroutines, FreeMu orders those accesses.
+var FreeMu sync.Mutex
+
+func lockedCond(f func() bool) bool {
+	FreeMu.Lock()
+	defer FreeMu.Unlock()
+	return f()
 }
 func Tier() int                    { return cur.Tier }
 func Symbolic() bool               { return false }
